@@ -155,6 +155,47 @@ def resolve_call(repo, call, fn=None, receivers="all"):
     return out
 
 
+_BUILTIN_METHOD_NAMES = None
+
+
+def resolve_call_loose(repo, call, fn=None):
+    """resolve_call, plus unique-name resolution: `x.m(...)` with an untyped receiver resolves to
+    the single repo class (non-test) that defines a method m, provided m is not also a method of a
+    builtin container/str/file type.  Used for call-graph reachability only (never for D4)."""
+    global _BUILTIN_METHOD_NAMES
+    out = resolve_call(repo, call, fn)
+    if out:
+        return out
+    f = call.func
+    if not isinstance(f, ast.Attribute):
+        return out
+    if _BUILTIN_METHOD_NAMES is None:
+        import collections
+        import io
+        s = set()
+        for t in (list, dict, set, str, bytes, bytearray, tuple, collections.deque, io.IOBase, frozenset, int, float):
+            s.update(dir(t))
+        _BUILTIN_METHOD_NAMES = s
+    if f.attr in _BUILTIN_METHOD_NAMES:
+        return out
+    idx = repo.__dict__.get("_method_index")
+    if idx is None:
+        idx = {}
+        for c in repo.all_classes():
+            for name, m in c.methods.items():
+                idx.setdefault(name, []).append((m, c))
+        repo.__dict__["_method_index"] = idx
+    cands = idx.get(f.attr, [])
+    roots = []
+    for m, c in cands:
+        # overriding definitions in one hierarchy count as one name
+        if not any(c is not c2 and c.is_subclass_of(c2) for _, c2 in cands):
+            roots.append((m, c))
+    if len(roots) == 1:
+        return [(m, c, "method") for m, c in cands]
+    return out
+
+
 def _locals_of(fn):
     cache = getattr(fn, "_locals_cache", None)
     if cache is None:
